@@ -125,7 +125,7 @@ inductive Item where
 /-- hidden moves of a connection; critical sections are taken in one piece -/
 inductive Mv where
   | c (a : CAct) | register | unregister | accept
-  | swept                     -- not a move of the connection: `Close` closes its socket (one loop iteration)
+  | swept                     -- not a move of the connection: `Close` calls `conn.Close()` on it (one loop iteration)
   deriving DecidableEq, Hashable, Inhabited, Repr
 
 def Mv.acts : Mv → List CAct
@@ -145,7 +145,8 @@ def applyMv (s : Sim) : Mv → Option Sim
   | .accept =>
     if s.x.pc = .backlog ∧ s.listenerOpen ∧ !s.closing then some { s with x := { s.x with pc := .accepted } } else none
   | .swept =>
-    if s.sweepMe then some { s with sweepMe := false, x := { s.x with sockClosed := true } } else none
+    -- (`sweepClose`: a connection whose handler is inside its own `conn.Close()` is not closed by the sweep)
+    if s.sweepMe then some { s with sweepMe := false, x := sweepClose s.x } else none
   | .c .relay =>
     -- the model lets a tunnel relay any number of round trips; the search needs one per observed echo
     -- (a client sends its next probe only after it saw the last one come back)
